@@ -33,6 +33,20 @@ WIDEF = ["src/wchar/vswprintf_s.c", "src/wchar/vsnwprintf_s.c", "src/wchar/vfwpr
 
 def jobs(prop, tier, only_fn=None):
     out = []
+    if prop == "C02":
+        # the %n pre-scan (shared scanners of safeclib_private.h) and each entry's own reads of the format: format = exact object
+        names = ("vprintf_s", "sscanf_s", "swprintf_s", "swscanf_s") if tier == "quick" else tuple(r[0] for r in ROWS)
+        for name, f, wide, sc, call in ROWS:
+            if name not in names or (only_fn and name != only_fn):
+                continue
+            files = sorted(set([f] + (WIDEF if wide else NARROW) + SUP))
+            for flen in ((1, 2, 3) if tier == "quick" else (1, 2, 3, 4, 5)):
+                out.append(Job("%s.C02.fmt%d" % (name, flen), "C02", "h_fmtn.c", files,
+                               defines=["-DWIDE=%d" % wide, "-DSCANF=%d" % sc, "-DFL=%d" % flen, "-DFLEN=%d" % flen, "-DRB=%d" % (flen + 1), "-DCALL=%s" % call] + (["-DVH_MEMSET_WORD"] if wide else []),
+                               models=("libc_models.c", "fmt_models.c"), native_models=("fmt_models.c",), object_bits=10, unwind_default=flen + 3, fn=name, memchecks=True, cbmc_flags=["--no-signed-overflow-check"],
+                               unwind_rules=[(r"vh_ref_has_n", flen + 4), (r"^memset\.", 40), (r"^(strcat|strlen|strcpy)\.", 48)],
+                               bounds={"format": "exact object of %d symbolic characters (22-symbol alphabet) + terminator" % flen, "libc": "contract model"}, timeout=300))
+        return out
     if prop != "C09":
         return out
     for name, f, wide, sc, call in ROWS:
